@@ -176,6 +176,12 @@ def corpus():
     return _CORPUS
 
 
+EDGE_TEXTS = [".foo;", ".", "..", ".foo.bar;\nlet x = 1;", "a..b;", ";", "", "(", ")", "let", "let x", "let x =", "x.",
+              "x.y.", "x.y.;", "import", "import \"", "\"", "//", "{", "}", "{a", "{a =", "[", "]", ".0;", ".\"q\";",
+              "let a = {b = 1};\na.;", "let a = {b = 1};\na.b.;", "=> .x", "func", "func (", "module", "select", "not",
+              "a.\nb;", ".\nfoo;", "é.foo;", ".é;"]
+
+
 def concrete_text(rng, imports, pool):
     """One concrete text for an abstract text id with the given workspace imports."""
     if pool == "cx":
@@ -190,6 +196,10 @@ def concrete_text(rng, imports, pool):
             t = G.type_error_program(rng, imports)
         else:
             t = G.mutate(rng, G.program(rng, imports))
+    elif p < 0.05:
+        # tiny texts that put an unusual token first or last (a selector dot with nothing before it, a lone
+        # keyword, an unterminated string ...): positions 0:0 / 0:1 then sit next to the edge of the token list
+        t = rng.choice(EDGE_TEXTS)
     elif p < 0.40:
         t = G.program(rng)
     elif p < 0.62:
